@@ -696,8 +696,13 @@ static void codec_dict(const uint64_t *vals, size_t n) {
     if (!LIBCALL("dict.EncodedSize", "size", predicted = varintDictEncodedSize(in, n))) {
         return;
     }
-    for (int withdict = 0; withdict < 2; withdict++) {
+    /* withdict 0: one-shot encoder; 1: a fresh dictionary object; 2 / 3: a dictionary object that was first built for
+     * ANOTHER data set of a different index-width class (300 distinct values: 2-byte indices; 8 distinct: 1-byte) */
+    for (int withdict = 0; withdict < 4; withdict++) {
         const char *eapi = withdict ? "dict.EncodeWithDict" : "dict.Encode";
+        if (withdict >= 2 && n > 5000) {
+            continue;
+        }
         uint8_t *dst = enc_dst(predicted, 20 * n + 64);
         size_t wrote = 0;
         if (withdict) {
@@ -708,7 +713,18 @@ static void codec_dict(const uint64_t *vals, size_t n) {
             if (!d) {
                 continue;
             }
-            int ok = LIBCALL("dict.Build", "build", rc = varintDictBuild(d, in, n)) && rc == 0 &&
+            if (withdict >= 2) {
+                static uint64_t prior[600];
+                size_t np = withdict == 2 ? 600 : 24, nd = withdict == 2 ? 300 : 8;
+                for (size_t i = 0; i < np; i++) {
+                    prior[i] = (i % nd) * 1000003ULL + 5;
+                }
+                if (varintDictBuild(d, prior, np) != 0) {
+                    varintDictFree(d);
+                    continue;
+                }
+            }
+            int ok = LIBCALL("dict.Build", withdict >= 2 ? "rebuild of a populated dictionary" : "build", rc = varintDictBuild(d, in, n)) && rc == 0 &&
                      LIBCALL("dict.EncodedSizeWithDict", "size", p2 = varintDictEncodedSizeWithDict(d, n)) &&
                      LIBCALL(eapi, "encode", wrote = varintDictEncodeWithDict(dst, d, in, n));
             if (ok && p2 != predicted) {
@@ -1296,6 +1312,34 @@ static void codec_adaptive(const uint64_t *vals, size_t n, int auto_only) {
                     AFAIL("adaptive.Decode", "metadata_untrue", "%s: decode meta type %d header %d", cur_desc, (int)dm.encodingType, type);
                 }
             }
+            /* the decoder's meta argument is an output too: decode again with it holding (a) the metadata of ANOTHER
+             * stream of the same encoding and count (this stream's own metadata with the frame minimum, widths and
+             * exception counts of a different data set) and (b) a byte pattern */
+            for (int stale = 1; stale <= 2 && (M06 || M16); stale++) {
+                varintAdaptiveMeta sm = em;
+                if (stale == 1) {
+                    sm.encodingType = (varintAdaptiveEncodingType)type;
+                    sm.originalCount = n;
+                    sm.encodingMeta.forMeta.minValue += 1000;
+                    sm.encodingMeta.forMeta.count = n;
+                    sm.encodingMeta.pforMeta.min += 1000;
+                    sm.encodingMeta.pforMeta.count = (uint32_t)n;
+                    if (sm.encodingMeta.pforMeta.width == 0) {
+                        sm.encodingMeta.pforMeta.width = VARINT_WIDTH_8B;
+                    }
+                    sm.encodingMeta.pforMeta.exceptionCount += 1;
+                } else {
+                    memset(&sm, 0xEE, sizeof sm);
+                }
+                out = out_buf(n);
+                r = 0;
+                if (LIBCALL("adaptive.Decode", stale == 1 ? "meta of another stream" : "meta filled with ee", r = varintAdaptiveDecode(enc, out, n, &sm))) {
+                    if (r != n || cmp_u64(out, vals, n, &at) || (int)sm.encodingType != type) {
+                        AFAIL("adaptive.Decode", "roundtrip_mismatch", "%s: %s%s with a meta argument holding %s returned %zu (n=%zu), element %zu = %" PRIu64 " want %" PRIu64, cur_desc, forced < 0 ? "auto->" : "forced ", ENCNAME[type & 7],
+                              stale == 1 ? "the metadata of another stream of the same encoding and count" : "the byte ee", r, n, at, at < n ? out[at] : 0, at < n ? vals[at] : 0);
+                    }
+                }
+            }
         }
         if (M13) {
             char dapi[48];
@@ -1540,6 +1584,7 @@ int main(int argc, char **argv) {
         return 3;
     }
     vh_sandbox_init();
+    vh_watchdog(60); /* a library call that makes no progress for a whole period is reported as a hang */
     size_t maxn = M13 ? (vh_thorough ? 4097 : 385) : CORPUS_MAXN;
     const char *e = getenv("VERIF_MAXN");
     if (e) {
